@@ -168,6 +168,7 @@ def d2(app_label, evolutions, db='default', tracer=None, hinted=False,
                 ev.queue_purge_old_apps()
             ev._prepare_tasks()
             res.stage = 'execute'
+            res.evolver = ev
             ev.evolve()
         res.ok = True
         res.sig = ev.project_sig
